@@ -144,23 +144,23 @@ def augment(
     if initial_state_dist is not None:
         AugmentedMDP.initial_state_dist = staticmethod(initial_state_dist)
     else:
-        AugmentedMDP.initial_state_dist = mdp.initial_state_dist
+        AugmentedMDP.initial_state_dist = staticmethod(mdp.initial_state_dist)
     if actions is not None:
         AugmentedMDP.actions = staticmethod(actions)
     else:
-        AugmentedMDP.actions = mdp.actions
+        AugmentedMDP.actions = staticmethod(mdp.actions)
     if next_state_dist is not None:
         AugmentedMDP.next_state_dist = staticmethod(next_state_dist)
     else:
-        AugmentedMDP.next_state_dist = mdp.next_state_dist
+        AugmentedMDP.next_state_dist = staticmethod(mdp.next_state_dist)
     if reward is not None:
         AugmentedMDP.reward = staticmethod(reward)
     else:
-        AugmentedMDP.reward = mdp.reward
+        AugmentedMDP.reward = staticmethod(mdp.reward)
     if is_absorbing is not None:
         AugmentedMDP.is_absorbing = staticmethod(is_absorbing)
     else:
-        AugmentedMDP.is_absorbing = mdp.is_absorbing
+        AugmentedMDP.is_absorbing = staticmethod(mdp.is_absorbing)
     if (
         issubclass(AugmentedMDP, TabularMarkovDecisionProcess) and \
         isinstance(mdp, TabularMarkovDecisionProcess)
